@@ -64,4 +64,13 @@ RoundTripOK(e) ==
     /\ SameStack(lp, lq)
     /\ \A i \in 1..Len(lp) : LayerPreserved(e.b, e.y, lp, lq, i)
     /\ (e.pay_nonempty => e.y2 = e.y)
+(* For inputs that are DAMAGED packets (a single-octet lie somewhere in a packet of the independent encoder) the byte-level
+   comparison of the headers is not applied: what such an input "means" field by field is not fixed by any RFC table of this
+   module (e.g. octets behind an End-of-Options octet are padding).  What the property says for ANY accepted byte string still
+   is: parsing the serialization succeeds, it yields the same stack of layers, and serializing again reproduces it. *)
+WeakRoundTripOK(e) ==
+    LET lp == Norm(e.lp)  lq == Norm(e.lq) IN
+    /\ e.thrown = ""
+    /\ SameStack(lp, lq)
+    /\ (e.pay_nonempty => e.y2 = e.y)
 =============================================================================
